@@ -248,3 +248,17 @@ func (p *Program) LookupObj(pkgPath, name string) types.Object {
 	}
 	return pk.Types.Scope().Lookup(name)
 }
+
+// CallersOf lists the static call sites of g in the functions of g's package
+// (enough for unexported helpers).
+func (p *Program) CallersOf(g *ssa.Function) []CallSite {
+	var out []CallSite
+	for _, f := range p.FuncsIn(pkgPathOf(g)) {
+		for _, cs := range Calls(f) {
+			if Callee(cs.Common()) == g {
+				out = append(out, cs)
+			}
+		}
+	}
+	return out
+}
